@@ -710,6 +710,10 @@ class Watcher(object):
 
             if process is None:
                 nb_tries += 1
+                if self.max_retry == -1 and nb_tries >= 5:
+                    # "retry indefinitely" - but not in one go: this is the
+                    # event loop. The next periodic check tries again.
+                    return True
                 continue
             else:
                 self.notify_event("spawn", {"process_pid": process.pid,
